@@ -78,7 +78,7 @@ func checkC25(c *Ctx, r *Report) {
 	}
 	r.rule("C25.R1", "append only under State()==Healthy, read only under State()∉{Degraded,Unavailable}; the rejecting branch answers backpressureErrorCode()", 4)
 	r.rule("C25.R2", "rating decisions are metric >= threshold with worse states on the true edge (monotone decision diagram)", 4)
-	r.rule("C25.R3", "truncate before recompute in every entry point; recompute reads only samples and cfg", 5)
+	r.rule("C25.R3", "truncate before recompute in every entry point; every reader of the rating recomputes first; recompute reads only samples and cfg", 7)
 	r.rule("C25.R4", "backpressureErrorCode maps Degraded and Unavailable to Kafka-retriable codes", 2)
 
 	sc, ok := stateConsts(m)
@@ -311,6 +311,35 @@ func checkC25(c *Ctx, r *Report) {
 			r.ok("C25.R3", key, m.Pos(cs.in.Pos()), "")
 		} else {
 			r.viol("C25.R3", key, m.Pos(cs.in.Pos()), "recomputeLocked reachable without truncateLocked: samples older than the window take part in the rating: "+path)
+		}
+	}
+	// whoever hands out the rating rates first: every read of the state field outside the rating
+	// helpers is preceded, on every path, by recomputeLocked (a rating that is only refreshed when
+	// the truncation dropped something stays stale once the window has emptied)
+	for _, fn := range m.FuncsInPkg(pkgBrokerLib) {
+		switch fn.Name() {
+		case "recomputeLocked", "setStateLocked", "NewS3HealthMonitor":
+			continue
+		}
+		for _, b := range fn.Blocks {
+			for _, in := range b.Instrs {
+				fa, ok := in.(*ssa.FieldAddr)
+				if !ok {
+					continue
+				}
+				t, f, _, ok := fieldAddrInfo(fa)
+				if !ok || t != tHealth || f != "state" || faIsWriteOnly(fa) {
+					continue
+				}
+				key := fn.Name() + " rates the current window before it reads the rating"
+				if ok, path := mustPassBefore(m, fn, in, func(x ssa.Instruction) bool {
+					return isCallTo(x, "(*"+tHealth+").recomputeLocked")
+				}); ok {
+					r.ok("C25.R3", key, m.Pos(in.Pos()), "")
+				} else {
+					r.viol("C25.R3", key, m.Pos(in.Pos()), "the rating is read on a path that did not recompute it: "+path+" — it then reflects samples that may have left the window")
+				}
+			}
 		}
 	}
 	if len(callers) < 3 {
